@@ -15,13 +15,15 @@ RULE = ("plural groups with random form subsets containing `other`, cardinal/ord
         "literal-count foreign key / generated code / td_plural!; non-trivial = >=2 forms besides `other`; distinct by "
         "(locale, rule, form subset)")
 
-LOCALES = ["en", "fr", "ru", "ar", "pl", "ja", "cy", "he", "lt", "lv", "ga", "sl", "cs", "ro", "pt", "de"]
+LOCALES = ["en", "fr", "ru", "ar", "pl", "ja", "cy", "he", "lt", "lv", "ga", "sl", "cs", "ro", "pt", "de", "pt-PT", "fr-CA", "en-GB"]
 
 ANCHORS = [
     ("en", "cardinal", {"0": "other", "1": "one", "2": "other", "11": "other", "21": "other"}),
     ("en", "ordinal", {"1": "one", "2": "two", "3": "few", "4": "other", "11": "other", "12": "other", "13": "other", "21": "one", "22": "two", "23": "few", "101": "one"}),
     ("fr", "cardinal", {"0": "one", "1": "one", "2": "other", "1000000": "many"}),
     ("fr", "ordinal", {"1": "one", "2": "other"}),
+    ("pt", "cardinal", {"0": "one", "1": "one", "2": "other"}),
+    ("pt-PT", "cardinal", {"0": "other", "1": "one", "2": "other"}),
     ("ru", "cardinal", {"1": "one", "2": "few", "5": "many", "11": "many", "21": "one", "22": "few", "25": "many"}),
     ("ar", "cardinal", {"0": "zero", "1": "one", "2": "two", "3": "few", "11": "many", "100": "other"}),
     ("pl", "cardinal", {"1": "one", "2": "few", "5": "many", "12": "many", "22": "few"}),
@@ -190,7 +192,7 @@ def e2e_stage(res, tier, seed, table):
     crates = []
     counts_arr = ", ".join("%du64" % n for n in RT_COUNTS)
     for ci in range(ncrates):
-        locs = rng.sample(LOCALES, 6 if tier == "quick" else 10)
+        locs = rng.sample([l for l in LOCALES if "-" not in l], 6 if tier == "quick" else 10) + ["pt-PT", "fr-CA"]
         p, meta = gen_project(rng, locs, 3 if tier == "quick" else 5, [])
         c = e2e.ProbeCrate("c05_%d" % ci, p)
         for (key, loc), (rule, forms) in meta.items():
